@@ -30,9 +30,9 @@ type gS1 struct {
 	Age  int    `cty:"age"`
 }
 type gS2 struct {
-	Inner gS1               `cty:"inner"`
-	Tags  []string          `cty:"tags"`
-	Opt   *int              `cty:"opt"`
+	Inner gS1              `cty:"inner"`
+	Tags  []string         `cty:"tags"`
+	Opt   *int             `cty:"opt"`
 	M     map[string]uint8 `cty:"m"`
 }
 type gS3 struct {
@@ -51,9 +51,9 @@ type gS5 struct {
 	Name string `cty:"name"`
 }
 
-func ip(i int) *int          { return &i }
-func sp(s string) *string    { return &s }
-func ipp(i int) **int        { p := &i; return &p }
+func ip(i int) *int       { return &i }
+func sp(s string) *string { return &s }
+func ipp(i int) **int     { p := &i; return &p }
 
 type goCase struct {
 	name string
